@@ -435,7 +435,7 @@ fn write_partial(ctx: &Ctx, level: &str, batches: &[&Batch<Art>], violations: u6
 
 fn run_c08(ctx: &Ctx) -> i32 {
     let thorough = ctx.tier == "thorough";
-    let (n_small, n_med) = if thorough { (1_000_000, 150_000) } else { (100_000, 15_000) };
+    let (n_small, n_med) = if thorough { (1_000_000, 150_000) } else { (100_000, 8_000) };
     let b1 = free_batch("C08", &C08_MACHINES, n_small, SizeClass::Small, ctx.seed, "free/small(2..64 records)");
     let b2 = if b1.violations.is_empty() { free_batch("C08", &C08_MACHINES, n_med, SizeClass::Medium, ctx.seed ^ 0x11, "free/medium(2..4096 records)") } else { Batch::default() };
     // long streams: "independent of the number of terms"
@@ -472,7 +472,7 @@ fn run_c08(ctx: &Ctx) -> i32 {
 
 fn run_c09(ctx: &Ctx) -> i32 {
     let thorough = ctx.tier == "thorough";
-    let (n_small, n_med) = if thorough { (300_000, 40_000) } else { (30_000, 4_000) };
+    let (n_small, n_med) = if thorough { (300_000, 40_000) } else { (30_000, 2_000) };
     let b1 = free_batch("C09", &C09_MACHINES, n_small, SizeClass::Small, ctx.seed, "free/small(2..64 records)");
     let b2 = if b1.violations.is_empty() { free_batch("C09", &C09_MACHINES, n_med, SizeClass::Medium, ctx.seed ^ 0x22, "free/medium(2..4096 records)") } else { Batch::default() };
     // every oriented merge tree over <= 5 chunks, with an empty chunk / empty operand at every position
